@@ -263,6 +263,15 @@ func c15xmlInput(c *core.Ctx, b []byte, mutated bool) {
 	checkSeq = func(api string, ms mxj.MapSeq, err error) { checkSeqWith(api, ms, err, accept, leading) }
 	ms, err := mxj.NewMapXmlSeq(b)
 	checkSeq("NewMapXmlSeq", ms, err)
+	if err == nil && c.R.Intn(3) == 0 {
+		// the cast form of the sequence decoder: what it returns goes through the sequence encoders as well
+		if msc, e := mxj.NewMapXmlSeq(b, true); e == nil {
+			c15reencodeSeq(c, msc)
+		}
+		if msc, e := mxj.NewMapXmlSeqReader(newBudget(b), true); e == nil {
+			c15reencodeSeq(c, msc)
+		}
+	}
 	ms, err = mxj.NewMapXmlSeqReader(newBudget(b))
 	checkSeq("NewMapXmlSeqReader", ms, err)
 	ms, _, err = mxj.NewMapXmlSeqReaderRaw(newBudget(b))
